@@ -489,6 +489,10 @@ func (c *Ctx) call(s *State, fr *Frame, x *ssa.Call) []*State {
 		res := c.invoke(s, fr, x, com, args)
 		if res != nil {
 			fr.regs[x] = res
+			if s.lastRes == nil {
+				s.lastRes = map[string]Val{}
+			}
+			s.lastRes["("+typeName(com.Value.Type())+")."+com.Method.Name()] = res
 		}
 		return nil
 	}
